@@ -24,6 +24,49 @@ type ParseCase struct {
 	// loop: one buffer, one Packet), so slices kept from an earlier decode point into the
 	// memory the next input is written to
 	SameBuf bool `json:"same_buf,omitempty"`
+	// Touch: accessor calls made on the receiver between the decode of A and the decode of B
+	// (a forwarder edits the header it received); the decode of B must not depend on them
+	Touch []TouchOp `json:"touch,omitempty"`
+}
+
+type TouchOp struct {
+	Kind string   `json:"kind"` // del (the K-th extension present, modulo the count) | set
+	K    int      `json:"k,omitempty"`
+	ID   uint8    `json:"id,omitempty"`
+	Val  HexBytes `json:"val,omitempty"`
+}
+
+// applyTouch runs the accessor calls on h and returns the value buffers handed to SetExtension
+// (they stay the caller's: a later decode must not write into them).
+func applyTouch(h *rtp.Header, ops []TouchOp) (handed [][]byte) {
+	for _, op := range ops {
+		switch op.Kind {
+		case "del":
+			if ids := h.GetExtensionIDs(); len(ids) > 0 {
+				_ = h.DelExtension(ids[op.K%len(ids)])
+			}
+		case "set":
+			v := clone(op.Val)
+			if v == nil {
+				v = []byte{}
+			}
+			if h.SetExtension(op.ID, v) == nil {
+				handed = append(handed, v, clone(v))
+			}
+		}
+	}
+
+	return handed
+}
+
+func handedIntact(handed [][]byte) bool {
+	for i := 0; i+1 < len(handed); i += 2 {
+		if !bytes.Equal(handed[i], handed[i+1]) {
+			return false
+		}
+	}
+
+	return true
 }
 
 var subC02 = register("C02", "parse", checkC02)
@@ -264,6 +307,10 @@ func checkC02(r *run, c *ParseCase) (CaseInfo, error) {
 			a = shared[:copy(shared, c.A)]
 		}
 		_ = used.Unmarshal(a)
+		handed := applyTouch(&used.Header, c.Touch)
+		if len(c.Touch) > 0 {
+			ci.class("reuse-after-accessor-calls")
+		}
 		if len(used.CSRC) > int(safeCC(in)) || len(used.Extensions) > len(fresh.Extensions) {
 			ci.class("reuse-earlier-had-more")
 			ci.Nontrivial = true
@@ -275,6 +322,9 @@ func checkC02(r *run, c *ParseCase) (CaseInfo, error) {
 		err2 := used.Unmarshal(in2)
 		if !bytes.Equal(in2, c.B) {
 			return ci, failf("Unmarshal of %s into a Packet that had decoded %s from the same receive buffer modified its input: %s", hx(c.B), hx(c.A), hx(in2))
+		}
+		if !handedIntact(handed) {
+			return ci, failf("Unmarshal of %s into a Packet on which SetExtension had been called wrote into the value slice the caller passed to SetExtension", hx(c.B))
 		}
 		if got, want := decodeObs(&used, err2), decodeObs(&fresh, err); got != want {
 			if err == nil && err2 == nil && !fresh.Extension && used.ExtensionProfile != fresh.ExtensionProfile {
@@ -298,7 +348,11 @@ func checkC02(r *run, c *ParseCase) (CaseInfo, error) {
 			_, _ = uh.Unmarshal(clone(e))
 		}
 		_, _ = uh.Unmarshal(clone(c.A))
+		hhanded := applyTouch(&uh, c.Touch)
 		n2, e2 := uh.Unmarshal(clone(c.B))
+		if !handedIntact(hhanded) {
+			return ci, failf("Header.Unmarshal of %s into a Header on which SetExtension had been called wrote into the value slice the caller passed to SetExtension", hx(c.B))
+		}
 		if got, want := headerObs(&uh, n2, e2), headerObs(&fh, hn, herr); got != want {
 			if herr == nil && e2 == nil && !fh.Extension && uh.ExtensionProfile != fh.ExtensionProfile {
 				if e := r.finding("F02-stale-extension-profile", "decode %s after %s into the same Header: ExtensionProfile stays %#x", hx(c.B), hx(c.A), uh.ExtensionProfile); e != nil {
@@ -368,8 +422,17 @@ func genParseCase(t *rapid.T) *ParseCase {
 				c.Earlier = append(c.Earlier, genHostile(t, "earlier"))
 			}
 		}
+		if rapid.IntRange(0, 3).Draw(t, "touch") == 0 {
+			for i, k := 0, rapid.IntRange(1, 3).Draw(t, "ntouch"); i < k; i++ {
+				if genBool(t, "touchdel") {
+					c.Touch = append(c.Touch, TouchOp{Kind: "del", K: rapid.IntRange(0, 7).Draw(t, "touchk")})
+				} else {
+					c.Touch = append(c.Touch, TouchOp{Kind: "set", ID: uint8(biased(t, "touchid", 1, 255, 1, 2, 14, 15)), Val: genBytesN(t, "touchval", rapid.IntRange(1, 20).Draw(t, "touchlen"))})
+				}
+			}
+		}
 		// short rejected inputs are what leaves half-updated state behind: make them frequent
-		if rapid.IntRange(0, 3).Draw(t, "shorta") == 0 {
+		if rapid.IntRange(0, 3).Draw(t, "shorta") == 0 && len(c.Touch) == 0 {
 			c.A = rapid.SliceOfN(rapid.Byte(), 0, 16).Draw(t, "shortabytes")
 			if len(c.A) > 0 {
 				c.A[0] = rapid.SampledFrom([]uint8{0x80, 0x8F, 0x81, 0x90, 0xA0, 0x9F}).Draw(t, "shorta0")
@@ -450,7 +513,7 @@ func enumC02(r *run, maxTail int) {
 	r.col.Exhaustive(fmt.Sprintf("C02 structured short packets: 6 first bytes x 4 profiles x 0-3 words x all tails <=%d bytes over an 8-symbol alphabet", maxTail), envShards == 1)
 }
 
-const ruleC02 = "inputs: random byte strings, valid RFC images (reference builder) and 1-3 byte-level mutations of them (truncate/flip/set/add/insert/delete, biased to the header), plus an exhaustive enumeration of structured short packets over a boundary alphabet; 2/3 of the cases decode one to three earlier hostile inputs (often short, rejected ones) into the same receiver first. Oracle: no panic, input unmodified, certificate walk of every accepted parse against the input bytes, Header/Packet agreement, fresh-vs-reused equality. Non-trivial = rejected input, accepted input with an extension, or reuse where the earlier input had more CSRCs/extensions; distinct = FNV-64 of the (A,B) pair"
+const ruleC02 = "inputs: random byte strings, valid RFC images (reference builder) and 1-3 byte-level mutations of them (truncate/flip/set/add/insert/delete, biased to the header), plus an exhaustive enumeration of structured short packets over a boundary alphabet; 2/3 of the cases decode one to three earlier hostile inputs (often short, rejected ones) into the same receiver first (a third of them through one shared receive buffer; a quarter with 1-3 DelExtension/SetExtension calls on the receiver before the last decode - the value slices handed to SetExtension must stay untouched). Oracle: no panic, input unmodified, certificate walk of every accepted parse against the input bytes, Header/Packet agreement, fresh-vs-reused equality. Non-trivial = rejected input, accepted input with an extension, or reuse where the earlier input had more CSRCs/extensions; distinct = FNV-64 of the (A,B) pair"
 
 func TestC02(t *testing.T) {
 	r := begin(t, "C02", "exploration", ruleC02)
